@@ -22,7 +22,17 @@ def E(name, run, shards=1, **kw):
 CHECKS = {
     "C01": dict(
         title="Balance: supply = sum of balances, no negative balance",
-        quick=dict(groups=[G("stateful", "^TestC01Stateful$", 120, 8)]),
-        thorough=dict(groups=[G("stateful", "^TestC01Stateful$", 1500, 16)]),
+        quick=dict(groups=[G("stateful", "^TestC01Stateful$", 500, 8)]),
+        thorough=dict(groups=[G("stateful", "^TestC01Stateful$", 6000, 16)]),
+    ),
+    "C02": dict(
+        title="Balance: debits need the holder's or the Alphabet's authorisation",
+        quick=dict(groups=[G("stateful", "^TestC02Stateful$", 300, 7), E("matrix", "^TestC02Matrix$")]),
+        thorough=dict(groups=[G("stateful", "^TestC02Stateful$", 5000, 15), E("matrix", "^TestC02Matrix$")]),
+    ),
+    "C09": dict(
+        title="Balance locks return exactly once at expiry unless burnt",
+        quick=dict(groups=[G("stateful", "^TestC09Stateful$", 400, 8)]),
+        thorough=dict(groups=[G("stateful", "^TestC09Stateful$", 6000, 16)]),
     ),
 }
